@@ -4,8 +4,10 @@ usage: seedcheck.py <prop> <mN> [check ...]   (default check = the property itse
 Writes /verif/seeded/<prop>-<mN>/{patch.diff, demo files, HOWTO.txt, meta.json}."""
 import sys, os, re, subprocess, json, shutil, time
 prop, mn = sys.argv[1], sys.argv[2]
+wave = os.environ.get("WAVE", "wt")          # worktree prefix: /tmp/<wave>-<prop>
+tag = "" if wave == "wt" else wave            # id suffix: C10-w2m1
 checks = sys.argv[3:] or [prop]
-wt = f"/tmp/wt-{prop}"
+wt = f"/tmp/{wave}-{prop}"
 src = f"{wt}/_mutants/{mn}"
 env = dict(os.environ, GOFLAGS="-mod=mod", GOPROXY="off", GOSUMDB="off")
 def sh(cmd, cwd=wt, timeout=900, extra=None):
@@ -17,7 +19,7 @@ cps = re.findall(r"^\s*cp\s+(_mutants/\S+)\s+(\S+)", howto, re.M)
 tests = [l.strip().rstrip("\\").strip() for l in howto.splitlines() if re.match(r"^\s*go (test|run) ", l)]
 assert cps and tests, (cps, tests)
 cmd = tests[0]
-meta = {"property": prop, "id": f"{prop}-{mn}", "demo_command": cmd, "demo_files": [c[1] for c in cps]}
+meta = {"property": prop, "id": f"{prop}-{tag}{mn}", "demo_command": cmd, "demo_files": [c[1] for c in cps]}
 rc, out = sh("git status --porcelain")
 dirty = [l for l in out.splitlines() if not l.endswith("_mutants/")]
 assert not dirty, dirty
@@ -47,14 +49,14 @@ meta["verified"] = {"demo_passes_on_clean_tree": rc_clean == 0, "builds_with_cha
                     "demo_fails_with_change": rc_mut != 0}
 valid = rc_clean == 0 and rc_build == 0 and suite_ok and rc_mut != 0
 meta["valid"] = valid
-print(f"{prop}-{mn}: clean-demo rc={rc_clean} build rc={rc_build} suite_ok={suite_ok} (fails={fails}) mutant-demo rc={rc_mut} -> valid={valid}")
+print(f"{prop}-{tag}{mn}: clean-demo rc={rc_clean} build rc={rc_build} suite_ok={suite_ok} (fails={fails}) mutant-demo rc={rc_mut} -> valid={valid}")
 if not valid:
     print(out_clean[-800:] if rc_clean else "", out_build[-500:], out_mut[-300:] if rc_mut == 0 else "")
 # run the checks against a mutated copy of /repo
 results = {}
 if valid:
-    mr = f"/tmp/mutrepo-{prop}-{mn}"
-    outdir = f"/tmp/mutout-{prop}-{mn}"
+    mr = f"/tmp/mutrepo-{prop}-{tag}{mn}"
+    outdir = f"/tmp/mutout-{prop}-{tag}{mn}"
     shutil.rmtree(mr, ignore_errors=True); shutil.rmtree(outdir, ignore_errors=True)
     subprocess.run(["rsync", "-a", "--exclude", ".git", "/repo/", mr + "/"], check=True)
     rc, out = sh(f"git init -q . && git apply {src}/patch.diff", cwd=mr); assert rc == 0, out
@@ -69,7 +71,7 @@ if valid:
     shutil.rmtree(mr, ignore_errors=True); shutil.rmtree(outdir, ignore_errors=True)
 meta["checks_run"] = results
 meta["caught_by"] = [c for c, r in results.items() if r["exit"] == 1]
-dst = f"/verif/seeded/{prop}-{mn}"
+dst = f"/verif/seeded/{prop}-{tag}{mn}"
 os.makedirs(dst, exist_ok=True)
 for f in os.listdir(src):
     shutil.copy(f"{src}/{f}", f"{dst}/{f}")
